@@ -78,7 +78,7 @@ TRANSC = [12, 13, 14, 15]
 
 
 def budget(tier):
-    return 200 if tier == "quick" else 3000
+    return 600 if tier == "quick" else 6000
 
 
 def measures_of(case):
@@ -92,11 +92,13 @@ def measures_of(case):
 # ----------------------------------------------------------------------------------------------
 # generation
 # ----------------------------------------------------------------------------------------------
-def _gen_budget(rng, costs):
+def _gen_budget(rng, costs, zero_ok):
     n = len(costs)
     cs = [pb.F(c) for c in costs]
     tot = sum(cs, Fraction(0))
     mode = rng.randrange(8)
+    if zero_ok and rng.randrange(12) == 0:
+        return Fraction(0)                      # budget 0: only zero-cost projects fit
     if n == 0 or mode == 0:
         return Fraction(rng.choice([1, 2, 3]))
     if mode == 1:
@@ -133,7 +135,7 @@ def _gen_ballot(rng, btype, n, cumulative_total):
         return members
     rng.shuffle(members)
     if btype == "cardinal":
-        pool = SCORES + ([-1, "-1/2"] if rng.randrange(5) == 0 else [])
+        pool = SCORES + ([-1, "-1/2", -2] if rng.randrange(3) == 0 else [])
         return [[j, pb.qs(rng.choice(pool))] for j in members]
     # cumulative: non-negative scores
     return [[j, pb.qs(rng.choice(SCORES))] for j in members]
@@ -164,7 +166,7 @@ def gen(rng, i, tier):
     costs = [pb.qs(rng.choice(pool)) for _ in range(n)]
     if kind == "solver" and all(pb.F(c) == 0 for c in costs):
         costs[rng.randrange(n)] = "1/1"          # an all-zero knapsack row aborts CBC (excluded by the property)
-    b = _gen_budget(rng, costs)
+    b = _gen_budget(rng, costs, kind == "pure")
     nb = rng.choice([1, 2, 3, 3, 4, 5]) if kind == "pure" else rng.choice([1, 2, 3])
     ballots = []
     for _ in range(nb):
